@@ -55,9 +55,7 @@ def progress_bar(iterable, progress, n_to_run, pbar_desc='Computing Bycycle Feat
     """
 
     # Check progress specifier is okay
-    tqdm_options = ['tqdm', 'tqdm.notebook']
-    if progress is not None and progress not in tqdm_options:
-        raise ValueError("Progress bar option not understood.")
+    check_progress(progress)
 
     # Use a tqdm, progress bar, if requested
     if progress:
@@ -81,6 +79,25 @@ def progress_bar(iterable, progress, n_to_run, pbar_desc='Computing Bycycle Feat
         pbar = iterable
 
     return pbar
+
+
+def check_progress(progress):
+    """Check that the progress bar specifier is a known option.
+
+    Parameters
+    ----------
+    progress : {None, 'tqdm', 'tqdm.notebook'}
+        Which kind of progress bar to use. If None, no progress bar is used.
+
+    Raises
+    ------
+    ValueError
+        If the progress bar option is not understood.
+    """
+
+    tqdm_options = ['tqdm', 'tqdm.notebook']
+    if progress is not None and progress not in tqdm_options:
+        raise ValueError("Progress bar option not understood.")
 
 
 def check_kwargs_shape(sigs, compute_features_kwargs, axis):
